@@ -514,7 +514,9 @@ func (w *World) NextTx() [12]byte {
 func (w *World) Tag() string {
 	w.tag++
 
-	return fmt.Sprintf("probe-%06d", w.tag)
+	// lengths 12..22 in no particular order: every residue mod 4 (ChannelData padding), and short payloads right
+	// behind longer ones (whatever a buffer still holds from the datagram before must not show)
+	return fmt.Sprintf("probe-%06d", w.tag) + strings.Repeat("~", (w.tag*7)%11)
 }
 
 // Send transmits raw bytes from the client to the server.
@@ -578,6 +580,15 @@ func Decode(b []byte, from *net.UDPAddr) Rx {
 		return r
 	}
 	r.Chan, r.Data = num, data
+	// what follows the declared payload is padding to a 4-byte boundary: zero bytes (the codec's contract), never
+	// left-overs of whatever the buffer held before (bytes of another sender's datagram would reach this client)
+	for _, x := range b[4+len(data):] {
+		if x != 0 {
+			r.Bad = fmt.Sprintf("chandata num=%#x: non-zero bytes % x behind the %d-byte payload", num, b[4+len(data):], len(data))
+
+			break
+		}
+	}
 
 	return r
 }
